@@ -40,6 +40,11 @@ def src(path):
                 text = r.stdout
         except (OSError, subprocess.SubprocessError):
             pass
+    if path.startswith("src/") and path.endswith(".rs"):
+        # the command functions take their options as `<name>: Options`; the anchors below say `opts`
+        for n in set(re.findall(r"\b(\w+)\s*:\s*&?\s*(?:mut\s+)?Options\b", text)) - {"opts"}:
+            if not re.search(r"\bopts\b", text):
+                text = re.sub(rf"\b{re.escape(n)}\b", "opts", text)
     _SRC_CACHE[path] = text
     return text
 
@@ -474,12 +479,15 @@ def gen(snapshot=None):
         if "compress_cmd" not in cbodies:
             raise TranslateError("anchor not found: compress_cmd body")
         cbody = expand_calls(cbodies["compress_cmd"], cbodies, ("compress_cmd",))
+        # (local names are not anchors: the header buffer is whatever `header::build(..)` is bound to)
+        hv = re.search(r"let\s+(?:mut\s+)?(\w+)\s*(?::[^=;]+)?=\s*[^;]*?header::build\(", cbody)
+        hvar = hv.group(1) if hv else r"header\w*"
         csteps = [
             ("ZOpenOutput", r"OpenOptions::new\(\)[^;]*?\.open\(&opts\.output\)"),
             ("ZChunkInput", r"chunk_input\("),
             ("ZBuildHeader", r"header::build\("),
-            ("ZWriteHeader", r"output_file\s*\.write_all\(&header"),
-            ("ZCopyTemp", r"io::copy\(&mut temp_file,"),
+            ("ZWriteHeader", r"\.write_all\(&" + hvar + r"\b"),
+            ("ZCopyTemp", r"io::copy\("),
             ("ZRemoveTemp", r"remove_file\(&opts\.temp_file\)"),
             ("ZPrintInfo", r"print_archive_reader\("),
         ]
@@ -511,7 +519,7 @@ def gen(snapshot=None):
             raise TranslateError("anchor not found: header checksum mismatch condition")
         cond = re.sub(r"\s+", " ", m.group(1)).strip()
         if m.start() >= cl.find("async fn clone_archive<R>") and m.start() < cl.find("async fn clone_archive<R>") + len(body) + 60:
-            e_name, a_expr = exp_name, r"archive\.header_checksum\(\)"
+            e_name, a_expr = exp_name, r"\w+\.header_checksum\(\)"
         else:
             # inside a helper: fn NAME(p1: &HashSum, p2: &HashSum) called as NAME(<expected>, archive.header_checksum())
             fn = None
@@ -520,7 +528,7 @@ def gen(snapshot=None):
                     fn = f
             if fn is None:
                 raise TranslateError("header checksum condition is in a function of unknown shape")
-            need(fn.group(1) + r"\(\s*" + exp_name + r",\s*archive\.header_checksum\(\)\s*\)", body,
+            need(fn.group(1) + r"\(\s*" + exp_name + r",\s*\w+\.header_checksum\(\)\s*\)", body,
                  "call of the header checksum helper with (expected, actual)")
             e_name, a_expr = fn.group(2), re.escape(fn.group(3))
         E, A = r"\*?" + e_name, r"\*?" + a_expr
@@ -570,17 +578,25 @@ def gen(snapshot=None):
                 raise TranslateError(f"concurrency construct `{m.group(0)}` in {name} is not covered by the pipeline model")
         w("Definition only_ordered_stage_concurrency : bool := true.")
         # flush/seek between last temp write and reopen of the temp file (F4)
-        last_w = [m.start() for m in re.finditer(r"temp_file\s*\.write_all\(", cli_fn)]
+        def temp_var(fn_text, what):
+            # the variable the temporary chunk file is bound to (whatever it is called)
+            m = re.search(r"let\s+(?:mut\s+)?(\w+)\s*(?::[^=;]+)?=\s*[^;]*?(?:tempfile\(|OpenOptions::new\(\))", fn_text)
+            if not m:
+                raise TranslateError(f"anchor not found: binding of the temporary chunk file in {what}")
+            return m.group(1)
+        tv = temp_var(cli_fn, "chunk_input")
+        last_w = [m.start() for m in re.finditer(tv + r"\s*\.write_all\(", cli_fn)]
         if not last_w:
             raise TranslateError("anchor not found: write of chunk data to the temp file in chunk_input")
         after_loop = cli_fn[last_w[-1]:]
-        cli_flush = bool(re.search(r"temp_file\s*\.(flush|sync_all|sync_data|shutdown|rewind|seek)\(", after_loop))
+        cli_flush = bool(re.search(tv + r"\s*\.(flush|sync_all|sync_data|shutdown|rewind|seek)\(", after_loop))
         w(f"Definition cli_writer_flushes_temp : bool := {'true' if cli_flush else 'false'}.")
-        last_w = [m.start() for m in re.finditer(r"temp_file\s*\.write_all\(", lib_fn)]
+        tv = temp_var(lib_fn, "create_archive")
+        last_w = [m.start() for m in re.finditer(tv + r"\s*\.write_all\(", lib_fn)]
         if not last_w:
             raise TranslateError("anchor not found: write of chunk data to the temp file in create_archive")
         after = lib_fn[last_w[-1]:]
-        lib_flush = bool(re.search(r"temp_file\s*\.(flush|sync_all|rewind|seek)\(", after))
+        lib_flush = bool(re.search(tv + r"\s*\.(flush|sync_all|rewind|seek)\(", after))
         w(f"Definition lib_writer_flushes_temp : bool := {'true' if lib_flush else 'false'}.")
         facts["cli_writer_flushes_temp"] = cli_flush
         facts["lib_writer_flushes_temp"] = lib_flush
